@@ -328,6 +328,14 @@ pub fn scenarios(quick: bool, rng: &mut Rng) -> Vec<Scn> {
             }
             v.push(Scn { name: format!("{} idle, client keep-alive {k} (1.5x overflows 16 bits)", role.name()), role, cfg: base(&|c| c.keep_alive = k), raw: false, busy: false, client_send_ack_ms: None, timeline: vec![], observe_ms: 5500, expect: Expect::Alive, live_gap: None });
         }
+        // the handshake service switches the keep-alive timer off (0) on a listener whose I/O
+        // configuration carries a keep-alive of its own: what the handshake says is in force
+        // (MQTT 5: HandshakeAck::keep_alive() does not take 0)
+        if role == Role::V3Server {
+            v.push(Scn { name: format!("{} idle, client keep-alive 1, handshake switches keep-alive off, io-level keep-alive 2", role.name()), role, cfg: base(&|c| { c.keep_alive = 1; c.hs.keepalive = Some(0); c.io_keepalive = Some(2); }), raw: false, busy: false, client_send_ack_ms: None, timeline: vec![], observe_ms: 6000, expect: Expect::Alive, live_gap: None });
+        }
+        // ... and the other way round: the negotiated value, not the I/O layer's, is in force
+        v.push(Scn { name: format!("{} idle, client keep-alive 2, io-level keep-alive 20", role.name()), role, cfg: base(&|c| { c.keep_alive = 2; c.io_keepalive = Some(20); }), raw: false, busy: false, client_send_ack_ms: None, timeline: vec![], observe_ms: ((3.0 + LATE + 1.0) * 1000.0) as u64, expect: Expect::KeepAlive { timeout: 3.0 }, live_gap: None });
         // keep-alive 0: the 30 s default does not fire within the observation
         v.push(Scn { name: format!("{} idle, client keep-alive 0", role.name()), role, cfg: base(&|c| c.keep_alive = 0), raw: false, busy: false, client_send_ack_ms: None, timeline: vec![], observe_ms: 6000, expect: Expect::Alive, live_gap: None });
         // live peers: keep-alive 2 (3 s), a complete packet every 1.5 s, whole or fragmented, idle or busy handlers
@@ -526,33 +534,9 @@ pub fn scenarios(quick: bool, rng: &mut Rng) -> Vec<Scn> {
     v
 }
 
-pub fn run(opts: &Opts) -> i32 {
-    let rep = Report::new(
-        opts,
-        "exploration",
-        "real time, coarse grid: keep-alive from the client's value (1.5x), handshake override, keep-alive 0, live peers with whole and \
-         fragmented packets and idle/busy handlers, traffic stopping at every phase, frame read rate (stall, fast, slow, fast-then-stall, cap), \
-         connect timeout (nothing / partial CONNECT, plain and combined server, CONNECT completing in time), client PINGREQ cadence \
-         (own and server-imposed keep-alive, keep-alive 0); thorough adds random arrival patterns. Windows are anchored at measured send \
-         times; tolerance -0.5 s / +3.5 s around the nominal expiry. distinct = distinct boundary-event trace signatures",
-    );
-    let quick = opts.tier == Tier::Quick;
-    let mut rng = Rng::for_case(opts.seed, "c20", 0);
-    let mut scns = scenarios(quick, &mut rng);
-    if let Some(p) = &opts.replay {
-        let v: serde_json::Value = serde_json::from_str(&std::fs::read_to_string(p).expect("replay file")).expect("json");
-        let name = v["replay"]["case"]["name"].as_str().unwrap_or("").to_string();
-        let all = {
-            let mut r2 = Rng::for_case(v["seed"].as_u64().unwrap_or(opts.seed), "c20", 0);
-            scenarios(false, &mut r2)
-        };
-        scns = all.into_iter().filter(|s| s.name == name).collect();
-        if scns.is_empty() {
-            println!("scenario {name:?} not found");
-            return 2;
-        }
-    }
-    rep.extra("scenarios", json!(scns.len()));
+/// Run timed scenarios, each on a thread of its own, and judge them. `part` is set when another
+/// check borrows scenarios (its tag goes into the replay record and the counters).
+pub fn run_scns(rep: &Report, opts: &Opts, scns: &[Scn], part: Option<&str>) -> (Vec<serde_json::Value>, Vec<String>) {
     let timings: std::sync::Mutex<Vec<serde_json::Value>> = std::sync::Mutex::new(Vec::new());
     let late: std::sync::Mutex<Vec<String>> = std::sync::Mutex::new(Vec::new());
     let threads = scns.len().clamp(1, 128);
@@ -560,12 +544,12 @@ pub fn run(opts: &Opts) -> i32 {
         let s = &scns[i as usize];
         let r = exec_with(run_scn(s), 50_000_000, Duration::from_secs(120));
         rep.eval();
-        let rj = json!({"name": s.name});
+        let rj = match part { Some(p) => json!({"name": s.name, "part": p}), None => json!({"name": s.name}) };
         match &r {
             Run::Done(o, _) => {
                 rep.distinct(o.sig);
                 let kind = format!("{:?}", s.expect);
-                rep.count(&format!("expect_{}", kind.split([' ', '{']).next().unwrap()), 1);
+                rep.count(&format!("{}expect_{}", part.map(|p| format!("{p}_")).unwrap_or_default(), kind.split([' ', '{']).next().unwrap()), 1);
                 rep.count("client_pings_observed", o.pings.len() as u64);
                 if o.end_s.is_some() {
                     rep.count("connections_ended_by_a_timer", 1);
@@ -597,12 +581,42 @@ pub fn run(opts: &Opts) -> i32 {
         let _ = r.after();
         pool::After::RetireThread
     });
-    let late = late.into_inner().unwrap();
+    (timings.into_inner().unwrap(), late.into_inner().unwrap())
+}
+
+pub fn run(opts: &Opts) -> i32 {
+    let rep = Report::new(
+        opts,
+        "exploration",
+        "real time, coarse grid: keep-alive from the client's value (1.5x), handshake override, keep-alive 0, live peers with whole and \
+         fragmented packets and idle/busy handlers, traffic stopping at every phase, frame read rate (stall, fast, slow, fast-then-stall, cap), \
+         connect timeout (nothing / partial CONNECT, plain and combined server, CONNECT completing in time), client PINGREQ cadence \
+         (own and server-imposed keep-alive, keep-alive 0); thorough adds random arrival patterns. Windows are anchored at measured send \
+         times; tolerance -0.5 s / +3.5 s around the nominal expiry. distinct = distinct boundary-event trace signatures",
+    );
+    let quick = opts.tier == Tier::Quick;
+    let mut rng = Rng::for_case(opts.seed, "c20", 0);
+    let mut scns = scenarios(quick, &mut rng);
+    if let Some(p) = &opts.replay {
+        let v: serde_json::Value = serde_json::from_str(&std::fs::read_to_string(p).expect("replay file")).expect("json");
+        let name = v["replay"]["case"]["name"].as_str().unwrap_or("").to_string();
+        let all = {
+            let mut r2 = Rng::for_case(v["seed"].as_u64().unwrap_or(opts.seed), "c20", 0);
+            scenarios(false, &mut r2)
+        };
+        scns = all.into_iter().filter(|s| s.name == name).collect();
+        if scns.is_empty() {
+            println!("scenario {name:?} not found");
+            return 2;
+        }
+    }
+    rep.extra("scenarios", json!(scns.len()));
+    let (timings, late) = run_scns(&rep, opts, &scns, None);
     if late.len() * 10 > scns.len() {
         rep.inconclusive(format!("{} of {} scenarios undecided because the harness was late (machine overloaded?)", late.len(), scns.len()));
     }
     rep.extra("undecided_scenarios", json!(late));
-    let mut t = timings.into_inner().unwrap();
+    let mut t = timings;
     t.sort_by_key(|v| v["scenario"].as_str().unwrap_or("").to_string());
     rep.extra("measured", json!(t));
     rep.set_exhaustive(false);
